@@ -487,7 +487,12 @@ func (g *Gen) transCall(x *Expr, env *Env) TV {
 		}
 		cur, old := env.heap(n), env.old.heap(n)
 		al0 := env.old.heap(g.allocHeap())
-		return TV{"(forall ((r Int)) (! (=> (<= (atime r) " + al0 + ") (= (select " + cur + " r) (select " + old + " r))) :pattern ((select " + cur + " r))))", SBool, nil}
+		// kept("G.sinkacc", x, y): ... except in the objects x and y
+		hyp := []string{"(<= (atime r) " + al0 + ")"}
+		for _, ex := range x.Args[1:] {
+			hyp = append(hyp, not(eq("r", g.trans(ex, env).T)))
+		}
+		return TV{"(forall ((r Int)) (! (=> " + and(hyp...) + " (= (select " + cur + " r) (select " + old + " r))) :pattern ((select " + cur + " r))))", SBool, nil}
 	case "freshslice":
 		// freshslice(s): s is nil or its backing array was allocated after entry
 		a := g.trans(x.Args[0], env)
